@@ -220,7 +220,7 @@ pub fn nontrivial(f: &Features) -> bool {
 
 pub fn run(run: &mut Run) -> &'static str {
     let max_ops = 60;
-    let cases = run.tier.pick(60_000, 3_000_000);
+    let cases = run.tier.pick(120_000, 3_000_000);
     run.proptest_part("histories", RULE, hist_case(4..200), cases, |case: &HistCase, st: &mut Stats| {
         let mut obs = Obs { snaps: vec![] };
         let cfg = Config::search_like(max_ops);
@@ -236,7 +236,7 @@ pub fn run(run: &mut Run) -> &'static str {
         Ok(())
     });
     // every legal move of every position of a walk: make, compare, undo, compare
-    let cases = run.tier.pick(20_000, 1_000_000);
+    let cases = run.tier.pick(40_000, 1_000_000);
     run.proptest_part("all_moves", RULE, super::common::pos_case(4..120), cases, |case, st: &mut Stats| {
         let ps = case.positions(crate::gen::Mix::General, 24, st);
         for gp in ps {
